@@ -134,8 +134,11 @@ def wf_case(case):
         return False
     if len(nid["shape"]) != 1 or len(eid["shape"]) != 2 or eid["shape"][1] != 2:
         return False
-    if g["node_props"] is None or g["edge_props"] is None:
+    if (g["node_props"] is None or g["edge_props"] is None) and (md.get("axes") is not None or md.get("node_props")
+                                                               or md.get("edge_props") or case.get("node_unsquish")
+                                                               or case.get("edge_unsquish")):
         return False
+    g = {**g, "node_props": g["node_props"] or [], "edge_props": g["edge_props"] or []}
     n, e = nid["shape"][0], eid["shape"][0]
     for props, k in ((g["node_props"], n), (g["edge_props"], e)):
         names = [nm for nm, _ in props]
@@ -313,6 +316,10 @@ def special_cases():
                 "md": {"node_props": [["t", "int8", True], ["x", "int32", False]]}, "origin": "special-md"})
     out.append({"g": {**base, "node_props": [t], "edge_props": []},
                 "md": {"node_props": [["ghost", "int8", False]]}, "origin": "special-md-ghost"})
+    # `None` instead of a property dict (allowed by the signature): no props group is written, nothing comes back
+    out.append({"g": {**base, "node_props": None, "edge_props": None}, "origin": "special-none-props"})
+    out.append({"g": {**base, "node_props": [x], "edge_props": None}, "origin": "special-none-props"})
+    out.append({"g": {**base, "node_props": None, "edge_props": []}, "md": {"axes": ["t"]}, "origin": "special-none-props-axes"})
     # unsquish: a 2-D property stored as one property per column (documented), and its error branch
     pos = ["pos", {"values": det_array("float32", [3, 2], 4), "missing": {"dtype": "bool", "shape": [3], "flat": [False, True, False]}}]
     pos_f = ["pos", {"values": {**det_array("int16", [3, 3], 5), "layout": "F"}, "missing": None}]
@@ -357,7 +364,9 @@ def random_case(rng, quick):
         if ok_axes or g["node_ids"]["shape"][0] == 0:
             c["md"] = {"axes": (ok_axes[:2] if ok_axes else []) + (["t_abs"] if g["node_ids"]["shape"][0] == 0 else [])}
     c["md"] = {**(c.get("md") or {}), "directed": rng.random() < 0.5}
-    if "axes" not in c["md"] and rng.random() < 0.15:
+    if "axes" not in c["md"] and "node_props" not in c["md"] and rng.random() < 0.05:
+        c["g"][rng.choice(["node_props", "edge_props"])] = None
+    elif "axes" not in c["md"] and rng.random() < 0.15:
         for key, ukey in (("node_props", "node_unsquish"), ("edge_props", "edge_unsquish")):
             cand = [(nm, p) for nm, p in g[key] if "obj" not in p["values"] and len(p["values"]["shape"]) == 2]
             if cand and rng.random() < 0.7:
@@ -445,7 +454,7 @@ def classify_spec(ck, case, obs, wf):
                     case, obs["write"], "ValueError or TypeError")
         return
     g = case["g"]
-    empty_vlen = any("obj" in p["values"] and not p["values"]["obj"] for lst in (g["node_props"], g["edge_props"]) for _, p in lst)
+    empty_vlen = any("obj" in p["values"] and not p["values"]["obj"] for lst in (g["node_props"] or [], g["edge_props"] or []) for _, p in lst)
     if obs["write"] != "ok":
         key = "C01:varlength-on-empty-graph" if (empty_vlen and obs["write"] == "IndexError") else "C01:write-raises"
         ck.fail(key, f"write_arrays raised {obs['write']} on a well-formed graph: {obs.get('write_msg')}", case, obs["write"], "ok")
